@@ -179,7 +179,7 @@ func runORD11(p *Prog, r *RuleRun) {
 		case ev == "SegmentFiler.Create" && phase == "call":
 			ci := ins.(ssa.CallInstruction)
 			key := cx.Key(ins, "SegmentFiler.Create")
-			fromLoad := cx.Fr.Root().Fn == open && derivesFromCall(ci.Common().Args[0], func(c *ssa.Call) bool { return eventName(c) == "types.MetaStore.Load" })
+			fromLoad := cx.Fr.Root().Fn == open && cx.Eval(ci.Common().Args[0], f).Tag == "~persisted" || cx.Fr.Root().Fn == open && derivesFromCall(ci.Common().Args[0], func(c *ssa.Call) bool { return eventName(c) == "types.MetaStore.Load" })
 			switch {
 			case f.Must["MetaStore.CommitState:ok"]:
 				r.OK(key, posOf(p, ins), "file created after CommitState:ok of the state naming it ("+cx.Fr.Stack()+")")
